@@ -123,6 +123,7 @@ def run(ctx):
         n_anc = st["instances"]
         ctx.cov["ancestor_instances"] = st["instances"]
         ctx.cov["ancestor_instances_accepted"] = acc
+        ctx.cov["ancestor_instances_remote_shorter_than_local_head"] = sum(1 for e in events if e["e"] == "AStart" and e["R"] < e["H"])
         ctx.cov["ancestor_probes_observed"] = st["probes"]
         ctx.cov["ancestor_distinct_probe_sequences"] = st["distinctProbeSequences"]
         ctx.cov["ancestor_max_probes"] = st["maxProbes"]
